@@ -2446,6 +2446,10 @@ impl<'de, 'e> de::Deserializer<'de> for YamlDeserializer<'de, 'e> {
                         .peek()?
                         .map(|ev| ev.location())
                         .unwrap_or_else(|| replay.last_location());
+                    // Errors that Serde raises without a location while the VALUE is read (e.g.
+                    // `invalid_value` from a `NonZero*` visitor) belong to the value node, not to
+                    // the key: as for sequence elements.
+                    let _value_guard = MissingFieldLocationGuard::new(reference_location);
 
                     #[cfg(any(feature = "garde", feature = "validator"))]
                     {
@@ -2498,6 +2502,7 @@ impl<'de, 'e> de::Deserializer<'de> for YamlDeserializer<'de, 'e> {
                         .unwrap_or_else(|| self.ev.last_location());
 
                     let reference_location = self.ev.reference_location();
+                    let _value_guard = MissingFieldLocationGuard::new(reference_location);
 
                     #[cfg(any(feature = "garde", feature = "validator"))]
                     {
